@@ -302,7 +302,10 @@ def uppercase_word(event: E) -> None:
     for i in range(event.arg):
         pos = buff.document.find_next_word_ending()
         words = buff.document.text_after_cursor[:pos]
-        buff.insert_text(words.upper(), overwrite=True)
+        # Replace exactly these characters. (`insert_text(overwrite=True)`
+        # stops at a line ending and replaces `len(new text)` characters.)
+        buff.delete(count=len(words))
+        buff.insert_text(words.upper())
 
 
 @register("downcase-word")
@@ -315,7 +318,10 @@ def downcase_word(event: E) -> None:
     for i in range(event.arg):  # XXX: not DRY: see meta_c and meta_u!!
         pos = buff.document.find_next_word_ending()
         words = buff.document.text_after_cursor[:pos]
-        buff.insert_text(words.lower(), overwrite=True)
+        # Replace exactly these characters. (`insert_text(overwrite=True)`
+        # stops at a line ending and replaces `len(new text)` characters.)
+        buff.delete(count=len(words))
+        buff.insert_text(words.lower())
 
 
 @register("capitalize-word")
@@ -328,7 +334,10 @@ def capitalize_word(event: E) -> None:
     for i in range(event.arg):
         pos = buff.document.find_next_word_ending()
         words = buff.document.text_after_cursor[:pos]
-        buff.insert_text(words.title(), overwrite=True)
+        # Replace exactly these characters. (`insert_text(overwrite=True)`
+        # stops at a line ending and replaces `len(new text)` characters.)
+        buff.delete(count=len(words))
+        buff.insert_text(words.title())
 
 
 @register("quoted-insert")
